@@ -358,6 +358,9 @@ func TestExtensionOrdering(t *testing.T) {
 			"concurrent-merge":   rapid.SampledFrom([]int{1, 1, 2, 3}).Draw(t, "concurrent-merge"),
 			"max-requests":       rapid.SampledFrom([]int{1, 2, 1000}).Draw(t, "max-requests"),
 			"compress":           rapid.Bool().Draw(t, "compress"),
+			// retries off (the harness' default), or a retry budget: a delivery that fails throughout it is given up, and the next
+			// flush still has to make its own attempt
+			"max-request-elapsed-time": rapid.SampledFrom([]string{"-1ns", "-1ns", "300ms"}).Draw(t, "max-request-elapsed-time"),
 		}
 		srv := newServer(up.URL, ingestPort, "forwarder")
 		srv.MaxParsers = rapid.SampledFrom([]int{1, 1, 3}).Draw(t, "max-parsers")
